@@ -59,12 +59,35 @@ func ruleV5(r *Run) {
 		found := false
 		ast.Inspect(lm.Body, func(n ast.Node) bool {
 			as, ok := n.(*ast.AssignStmt)
-			if !ok || len(as.Lhs) != 1 || len(as.Rhs) != 1 || fieldOf(info, as.Lhs[0]) != errF || errF == nil || identObj(info, as.Rhs[0]) != errObj || errObj == nil {
+			var site ast.Node
+			if ok && len(as.Lhs) == 1 && len(as.Rhs) == 1 && errF != nil && errObj != nil && fieldOf(info, as.Lhs[0]) == errF && identObj(info, as.Rhs[0]) == errObj {
+				site = as
+			}
+			// or through a helper that stores its argument in Decoder.Error (dec.setError(err))
+			if es, isES := n.(*ast.ExprStmt); isES && errObj != nil {
+				if c, isCall := es.X.(*ast.CallExpr); isCall {
+					for ai, a := range c.Args {
+						if identObj(info, a) != errObj {
+							continue
+						}
+						if hd := p.Decl(Callee(info, c)); hd != nil && hd.Body != nil {
+							hp := paramsOf(info, hd.Type)
+							ast.Inspect(hd.Body, func(k ast.Node) bool {
+								if ha, ok := k.(*ast.AssignStmt); ok && len(ha.Lhs) == 1 && len(ha.Rhs) == 1 && ai < len(hp) && fieldOf(info, ha.Lhs[0]) == errF && identObj(info, ha.Rhs[0]) == hp[ai] {
+									site = es
+								}
+								return true
+							})
+						}
+					}
+				}
+			}
+			if site == nil {
 				return true
 			}
 			found = true
 			noBytes := false
-			for _, fc := range factsWithSwitch(lparents, as) {
+			for _, fc := range factsWithSwitch(lparents, site) {
 				be, ok := fc.e.(*ast.BinaryExpr)
 				if !ok || identObj(info, be.X) != nObj {
 					continue
@@ -78,7 +101,7 @@ func ruleV5(r *Run) {
 					noBytes = true
 				}
 			}
-			r.Check(noBytes, "read error recorded only when no bytes came with it (Decoder.loadMore)", as.Pos(), "Error = err under n == 0", "loadMore records the error of Read although the same call delivered bytes: a reader that returns its last fragment together with io.EOF (allowed by io.Reader) puts the decoder in the error state while all values still decode, so the streaming decode reports EOF where the in-memory decode of the same bytes reports nothing, and a later genuine error is masked")
+			r.Check(noBytes, "read error recorded only when no bytes came with it (Decoder.loadMore)", site.Pos(), "Error = err under n == 0", "loadMore records the error of Read although the same call delivered bytes: a reader that returns its last fragment together with io.EOF (allowed by io.Reader) puts the decoder in the error state while all values still decode, so the streaming decode reports EOF where the in-memory decode of the same bytes reports nothing, and a later genuine error is masked")
 			return true
 		})
 		if !found {
